@@ -84,6 +84,39 @@ func VerifHarness_C20_Native() {
 		}
 	}
 	if verifDraws["str:scenario"] == "concurrent" { // scrape while several prove requests are in flight
+		// bursts of requests that complete together, a scrape after each burst: the gauge must read 0 whenever nothing is in flight
+		gaugeOK := true
+		for burst := 0; burst < 400 && gaugeOK; burst++ {
+			done := make(chan int, 3)
+			for k := 0; k < 3; k++ {
+				go func() {
+					req, _ := http.NewRequest("GET", "http://"+cfg.ProverAddress+"/prove", nil)
+					resp, err := http.DefaultClient.Do(req)
+					if err != nil {
+						done <- 0
+						return
+					}
+					io.Copy(io.Discard, resp.Body)
+					resp.Body.Close()
+					done <- resp.StatusCode
+				}()
+			}
+			for k := 0; k < 3; k++ {
+				if c := <-done; c != 0 {
+					tally[fmt.Sprintf("get/%d", c)]++
+				}
+			}
+			if burst%4 == 3 {
+				time.Sleep(2 * time.Millisecond)
+				r3, err := http.Get("http://" + cfg.MetricsAddress + "/metrics")
+				if err == nil {
+					b3, _ := io.ReadAll(r3.Body)
+					r3.Body.Close()
+					gaugeOK = strings.Contains(string(b3), `http_requests_in_flight{endpoint_pattern="/prove"} 0`)
+				}
+			}
+		}
+		verifAssert(gaugeOK, "the in-flight gauge reads zero whenever no request is in flight (after every burst of overlapping requests)")
 		var conns []net.Conn
 		for i := 0; i < 6; i++ {
 			conn, err := net.Dial("tcp", cfg.ProverAddress)
